@@ -802,10 +802,10 @@ def gen_items_case(r, idx):
     for _ in range(r.rng(1, 3)):
         its = gen_items(r, r.pick([31, 32, 33, 64, 65, 130]) if long else r.rng(1, 8), prev_bare=pb)
         pb = last_bare(its)
-        if not long and (r.chance(1, 4) or idx % 500 == 7):
+        if not long and (r.chance(1, 4) or idx % 1500 == 7):
             # the items arrive cut across two reads, and the application uses the
             # terminal for something else in between
-            between = "sleep_1200" if idx % 500 == 7 else r.pick(["-", "-", "size_%d_%d" % (r.rng(1, 9), r.rng(1, 5)), "size_80_24", "mouse_0", "mouse_1", "hide", "show",
+            between = "sleep_1200" if idx % 1500 == 7 else r.pick(["-", "-", "size_%d_%d" % (r.rng(1, 9), r.rng(1, 5)), "size_80_24", "mouse_0", "mouse_1", "hide", "show",
                               "erase_0", "move_0_0", "save", "restore", "buf_1", "buf_0", "title_6162", "alive_0", "alive_1",
                               "elem_" + el(wf_glyph(r), wf_attr(r)).replace(" ", "_")])
             lines.append("T 0 itemsplit %d %s %s" % (r.below(64), between, " ".join(its)))
